@@ -1,4 +1,348 @@
-(* Proofs/Rechunk.v *)
+(* Re-chunking: get_int::<J> / set_int::<J> on storage of w-bit words read or write the j-bit
+   digits of the raw value (little endian), for word widths dividing one another. *)
 From BVA Require Import Base.Prelude Base.Result Base.Words Base.Limbs.
 From BVA Require Import Model.Core Model.Ops Model.Arith Model.Conv Model.Auto Spec.Spec Proofs.Common.
 From Coq Require Import ZifyBool ZifyN ZifyNat.
+
+Definition digits_of (w R : N) (rhs : N -> N) : Prop := forall i, rhs i = (R / 2 ^ (w * i)) mod 2 ^ w.
+
+(* the storage widths of the crate: multiples of 8, one dividing the other *)
+Definition widths_ok (w j : N) : Prop :=
+  0 < w /\ 0 < j /\ w mod 8 = 0 /\ j mod 8 = 0 /\ (w mod j = 0 \/ j mod w = 0).
+
+Lemma mod0_mul a b : 0 < b -> a mod b = 0 -> a = b * (a / b).
+Proof. intros Hb H. pose proof (div_mod_eq a b). lia. Qed.
+
+(* bits of a fold of ORs *)
+Lemma fold_lor_testbit (f : N -> N) l acc b :
+  N.testbit (fold_left (fun v i => N.lor v (f i)) l acc) b
+  = N.testbit acc b || existsb (fun i => N.testbit (f i) b) l.
+Proof.
+  revert acc. induction l as [|x r IH]; intros acc; cbn [fold_left existsb].
+  - rewrite orb_false_r. reflexivity.
+  - rewrite IH, N.lor_spec. rewrite orb_assoc. reflexivity.
+Qed.
+
+Lemma existsb_nrange_unique (p : N -> bool) n k :
+  k < n -> (forall i, i < n -> i <> k -> p i = false) -> existsb p (nrange n) = p k.
+Proof.
+  intros Hk H. destruct (p k) eqn:E.
+  - apply existsb_exists. exists k. split; [apply In_nrange; assumption|assumption].
+  - destruct (existsb p (nrange n)) eqn:E2; [|reflexivity].
+    apply existsb_exists in E2. destruct E2 as [i [Hi Hp]]. apply In_nrange in Hi.
+    destruct (N.eq_dec i k) as [->|Hne]; [congruence|]. rewrite H in Hp by assumption. discriminate.
+Qed.
+
+Lemma existsb_nrange_none (p : N -> bool) n :
+  (forall i, i < n -> p i = false) -> existsb p (nrange n) = false.
+Proof.
+  intros H. destruct (existsb p (nrange n)) eqn:E; [|reflexivity].
+  apply existsb_exists in E. destruct E as [i [Hi Hp]]. apply In_nrange in Hi.
+  rewrite H in Hp by assumption. discriminate.
+Qed.
+
+Lemma leb_mul_div w a b : 0 < w -> (w * a <=? b) = (a <=? b / w).
+Proof.
+  intros Hw. destruct (N.leb_spec (w * a) b) as [H|H]; destruct (N.leb_spec a (b / w)) as [H'|H']; try reflexivity; exfalso.
+  - assert (a <= b / w) by (apply N.div_le_lower_bound; lia). lia.
+  - assert (w * a <= w * (b / w)) by (apply N.mul_le_mono_l; assumption).
+    pose proof (N.mul_div_le b w ltac:(lia)). lia.
+Qed.
+
+Lemma ltb_mul_div w a b : 0 < w -> (b <? w * a) = (b / w <? a).
+Proof.
+  intros Hw. destruct (N.ltb_spec b (w * a)) as [H|H]; destruct (N.ltb_spec (b / w) a) as [H'|H']; try reflexivity; exfalso.
+  - assert (w * a <= w * (b / w)) by (apply N.mul_le_mono_l; assumption).
+    pose proof (N.mul_div_le b w ltac:(lia)). lia.
+  - assert (w * (b / w + 1) <= w * a) by (apply N.mul_le_mono_l; lia).
+    pose proof (div_mod_eq b w). pose proof (mod_lt' b w Hw). lia.
+Qed.
+
+Section Slice.
+Variables w j : N.
+Hypothesis Hwj : widths_ok w j.
+
+Let Hw : 0 < w. Proof. apply Hwj. Qed.
+Let Hj : 0 < j. Proof. apply Hwj. Qed.
+
+Lemma slice_int_len_spec d idx :
+  j mod w = 0 -> (slice_int_len w j d <=? idx) = negb (idx * j <? w * lenw d).
+Proof.
+  intros Hd. destruct Hwj as (_ & _ & Hw8 & Hj8 & _).
+  unfold slice_int_len.
+  pose proof (mod0_mul w 8 ltac:(lia) Hw8) as Ew.
+  pose proof (mod0_mul j 8 ltac:(lia) Hj8) as Ej.
+  pose proof (mod0_mul j w Hw Hd) as Ejw.
+  set (w' := w / 8) in *. set (j' := j / 8) in *. set (s := j / w) in *.
+  assert (0 < w') as Hw' by lia. assert (0 < j') as Hj' by lia. assert (0 < s) as Hs by nia.
+  assert (j' = w' * s) as Ej' by nia.
+  destruct (N.leb_spec ((lenw d * w' + j' - 1) / j') idx) as [G1|G1];
+    destruct (N.ltb_spec (idx * j) (w * lenw d)) as [G2|G2]; cbn [negb]; try reflexivity; exfalso.
+  - apply (ceil_div_spec (lenw d * w') j' ltac:(lia) idx) in G1. nia.
+  - assert (~ ((lenw d * w' + j' - 1) / j' <= idx)) as Hn by lia.
+    apply Hn. apply (ceil_div_spec (lenw d * w') j' ltac:(lia) idx). nia.
+Qed.
+
+Lemma slice_get_int_spec d idx :
+  words_ok w d ->
+  slice_get_int w j d idx =
+  if idx * j <? w * lenw d then Some ((raw w d / 2 ^ (j * idx)) mod 2 ^ j) else None.
+Proof.
+  intros Hd. unfold slice_get_int.
+  destruct (N.leb_spec j w) as [Hjw|Hjw].
+  - (* narrower or equal J: one word holds r = w / j digits *)
+    assert (w mod j = 0) as Hdiv.
+    { destruct Hwj as (_ & _ & _ & _ & [H|H]); [assumption|].
+      assert (j = w) as -> by (pose proof (mod0_mul j w Hw H); destruct (j / w) as [|p]; nia).
+      apply N.mod_same. lia. }
+    pose proof (mod0_mul w j Hj Hdiv) as Ew. set (r := w / j) in *.
+    assert (0 < r) by nia.
+    assert ((idx <? lenw d * r) = (idx * j <? w * lenw d)) as ->.
+    { destruct (N.ltb_spec idx (lenw d * r)); destruct (N.ltb_spec (idx * j) (w * lenw d)); try reflexivity; nia. }
+    destruct (N.ltb_spec (idx * j) (w * lenw d)) as [Hin|Hin]; [|reflexivity].
+    f_equal. apply N.bits_inj. intro b.
+    rewrite wrap_testbit, shrw_testbit, mod_pow2_testbit, div_pow2_testbit, raw_testbit by assumption.
+    destruct (N.ltb_spec b j) as [Hb|Hb]; [cbn [andb]|reflexivity].
+    pose proof (div_mod_eq idx r) as Ei. pose proof (mod_lt' idx r ltac:(lia)) as Him.
+    destruct (divmod_unique (b + j * idx) w (idx / r) (b + j * (idx mod r)) Hw) as [-> ->]; [nia|nia|].
+    reflexivity.
+  - (* wider J: s = j / w words make one digit *)
+    assert (j mod w = 0) as Hdiv.
+    { destruct Hwj as (_ & _ & _ & _ & [H|H]); [|assumption].
+      pose proof (mod0_mul w j Hj H). destruct (w / j) as [|p]; nia. }
+    rewrite slice_int_len_spec by assumption.
+    pose proof (mod0_mul j w Hw Hdiv) as Ej. set (s := j / w) in *.
+    assert (0 < s) by nia.
+    destruct (N.ltb_spec (idx * j) (w * lenw d)) as [Hin|Hin]; cbn [negb]; [|reflexivity].
+    f_equal. apply N.bits_inj. intro b.
+    rewrite fold_lor_testbit, N.bits_0, orb_false_l.
+    rewrite mod_pow2_testbit, div_pow2_testbit, raw_testbit by assumption.
+    destruct (N.ltb_spec b j) as [Hb|Hb].
+    + cbn [andb].
+      pose proof (div_mod_eq b w) as Eb. pose proof (mod_lt' b w Hw) as Hbm.
+      assert (b / w < s) as Hbs by (apply N.div_lt_upper_bound; lia).
+      assert (existsb (fun i => N.testbit (shlw j (getw d (idx * s + i)) (w * i)) b) (nrange s)
+              = N.testbit (shlw j (getw d (idx * s + b / w)) (w * (b / w))) b) as ->.
+      { apply (existsb_nrange_unique (fun i => N.testbit (shlw j (getw d (idx * s + i)) (w * i)) b) s (b / w));
+          [assumption|].
+        intros i Hi Hne. rewrite shlw_testbit.
+        destruct (N.leb_spec (w * i) b) as [Hle|Hle]; [|rewrite andb_false_r; reflexivity].
+        assert (i <= b / w) as Hib by (apply N.div_le_lower_bound; lia).
+        rewrite (testbit_high (getw d (idx * s + i)) w (b - w * i)); [apply andb_false_r|apply getw_ok; assumption|nia]. }
+      rewrite shlw_testbit.
+      assert (b <? j = true) as -> by (apply N.ltb_lt; assumption).
+      assert (w * (b / w) <=? b = true) as -> by (apply N.leb_le; lia).
+      cbn [andb].
+      destruct (divmod_unique (b + j * idx) w (idx * s + b / w) (b mod w) Hw) as [-> ->]; [nia|assumption|].
+      f_equal. lia.
+    + cbn [andb]. apply existsb_nrange_none. intros i Hi. rewrite shlw_testbit.
+      assert (b <? j = false) as -> by (apply N.ltb_ge; assumption). reflexivity.
+Qed.
+
+End Slice.
+
+(* get_int on a canonical vector: the j-bit digits of its value *)
+Lemma v_get_int_spec w j v idx :
+  widths_ok w j -> canon_wv w v ->
+  v_get_int w j v idx =
+  if idx * j <? wl v then Some ((raw w (wd v) / 2 ^ (j * idx)) mod 2 ^ j) else None.
+Proof.
+  intros Hwj (Hd & Hl & Hr). unfold v_get_int.
+  destruct (N.ltb_spec (idx * j) (wl v)) as [Hin|Hin]; [|reflexivity].
+  rewrite slice_get_int_spec by assumption.
+  assert (idx * j <? w * lenw (wd v) = true) as -> by (apply N.ltb_lt; lia).
+  cbn [option_map]. f_equal.
+  (* the mask keeps everything: the digit has no bit at or above len - idx*j *)
+  apply N.bits_inj. intro b. rewrite N.land_spec, maskw_testbit.
+  destruct (N.ltb_spec b (wl v - idx * j)) as [Hb|Hb].
+  - rewrite mod_pow2_testbit. destruct (N.ltb_spec b j); cbn [andb]; [apply andb_true_r|reflexivity].
+  - cbn [andb]. rewrite andb_false_r.
+    rewrite mod_pow2_testbit, div_pow2_testbit.
+    rewrite (testbit_high (raw w (wd v)) (wl v)) by (try assumption; lia).
+    symmetry. apply andb_false_r.
+Qed.
+
+Lemma v_get_int_digits w j v :
+  widths_ok w j -> canon_wv w v ->
+  digits_of j (raw w (wd v)) (fun i => odefault (v_get_int w j v i) 0).
+Proof.
+  intros Hwj Hc i. rewrite v_get_int_spec by assumption.
+  destruct (N.ltb_spec (i * j) (wl v)) as [H|H]; [reflexivity|].
+  cbn [odefault]. destruct Hc as (_ & _ & Hr).
+  symmetry. apply N.bits_inj. intro b. rewrite mod_pow2_testbit, div_pow2_testbit, N.bits_0.
+  rewrite (testbit_high (raw w (wd v)) (wl v)) by (try assumption; lia). apply andb_false_r.
+Qed.
+
+Lemma v_get_int_some_iff w j v idx :
+  widths_ok w j -> canon_wv w v ->
+  (idx < v_int_len j v <-> exists x, v_get_int w j v idx = Some x).
+Proof.
+  intros Hwj Hc. rewrite v_get_int_spec by assumption.
+  unfold v_int_len. destruct Hwj as (_ & Hj & _).
+  destruct (N.ltb_spec (idx * j) (wl v)) as [H|H]; split; intros H'.
+  - eauto.
+  - destruct (N.lt_ge_cases idx ((wl v + j - 1) / j)) as [|Hge]; [assumption|exfalso].
+    apply (ceil_div_spec (wl v) j Hj idx) in Hge. nia.
+  - exfalso. assert (~ ((wl v + j - 1) / j <= idx)) as Hn by lia. apply Hn.
+    apply (ceil_div_spec (wl v) j Hj idx). nia.
+  - destruct H' as [x Hx]. discriminate.
+Qed.
+
+(* the words of the storage are the w-bit digits of the raw value *)
+Lemma getw_digits w d : 0 < w -> words_ok w d -> digits_of w (raw w d) (getw d).
+Proof. intros Hw Hd i. apply getw_raw; assumption. Qed.
+
+(* the six widths the crate instantiates *)
+Lemma widths_ok_cases w j :
+  In w [8; 16; 32; 64; 128] -> In j [8; 16; 32; 64; 128] -> widths_ok w j.
+Proof.
+  intros Hw Hj. unfold widths_ok.
+  cbn [In] in Hw, Hj.
+  repeat (destruct Hw as [<-|Hw]; [repeat (destruct Hj as [<-|Hj]; [vm_compute; repeat split; try reflexivity; auto|]); contradiction|]);
+  contradiction.
+Qed.
+
+(* ------------------------------------------------------------------ set_int *)
+
+Lemma fold_setw_getw (f : N -> N) base d n k :
+  getw (fold_left (fun d' i => setw d' (base + i) (f i)) (nrange n) d) k
+  = if (base <=? k) && (k <? base + n) && (k <? lenw d) then f (k - base) else getw d k.
+Proof.
+  induction n as [|n IH] using N.peano_ind.
+  - rewrite nrange_0. cbn [fold_left].
+    destruct (N.leb_spec base k); destruct (N.ltb_spec k (base + 0)); cbn [andb]; try reflexivity; lia.
+  - rewrite <- N.add_1_r, nrange_succ, fold_left_app. cbn [fold_left].
+    rewrite getw_setw, IH.
+    assert (lenw (fold_left (fun d' i => setw d' (base + i) (f i)) (nrange n) d) = lenw d) as ->.
+    { clear. induction n as [|n IHn] using N.peano_ind; [reflexivity|].
+      rewrite <- N.add_1_r, nrange_succ, fold_left_app. cbn [fold_left]. rewrite lenw_setw. assumption. }
+    destruct (N.eqb_spec (base + n) k) as [<-|Hne].
+    + destruct (N.ltb_spec (base + n) (lenw d)) as [Hl|Hl]; cbn [andb].
+      * assert (base <=? base + n = true) as -> by (apply N.leb_le; lia).
+        assert (base + n <? base + (n + 1) = true) as -> by (apply N.ltb_lt; lia).
+        cbn [andb]. f_equal. lia.
+      * rewrite !andb_false_r. reflexivity.
+    + cbn [andb].
+      destruct (N.leb_spec base k); destruct (N.ltb_spec k (base + n)); destruct (N.ltb_spec k (base + (n + 1)));
+        cbn [andb]; try reflexivity; lia.
+Qed.
+
+Lemma fold_setw_lenw (f : N -> N) base d n :
+  lenw (fold_left (fun d' i => setw d' (base + i) (f i)) (nrange n) d) = lenw d.
+Proof.
+  induction n as [|n IHn] using N.peano_ind; [reflexivity|].
+  rewrite <- N.add_1_r, nrange_succ, fold_left_app. cbn [fold_left]. rewrite lenw_setw. assumption.
+Qed.
+
+Lemma fold_setw_ok w (f : N -> N) base d n :
+  words_ok w d -> (forall i, f i < 2 ^ w) ->
+  words_ok w (fold_left (fun d' i => setw d' (base + i) (f i)) (nrange n) d).
+Proof.
+  intros Hd Hf. induction n as [|n IHn] using N.peano_ind; [assumption|].
+  rewrite <- N.add_1_r, nrange_succ, fold_left_app. cbn [fold_left]. apply words_ok_setw; auto.
+Qed.
+
+Lemma slice_set_int_spec w j d idx x :
+  widths_ok w j -> words_ok w d -> x < 2 ^ j -> idx * j < w * lenw d ->
+  exists d', slice_set_int w j d idx x = Some d' /\ words_ok w d' /\ lenw d' = lenw d /\
+    forall b, N.testbit (raw w d') b =
+              if (j * idx <=? b) && (b <? j * idx + j) && (b <? w * lenw d)
+              then N.testbit x (b - j * idx) else N.testbit (raw w d) b.
+Proof.
+  intros Hwj Hd Hx Hin. pose proof Hwj as (Hw & Hj & _ & _ & Hdiv). unfold slice_set_int.
+  destruct (N.leb_spec j w) as [Hjw|Hjw].
+  - assert (w mod j = 0) as Hd0.
+    { destruct Hdiv as [H|H]; [assumption|].
+      assert (j = w) as -> by (pose proof (mod0_mul j w Hw H); destruct (j / w) as [|p]; nia).
+      apply N.mod_same. lia. }
+    pose proof (mod0_mul w j Hj Hd0) as Ew. set (r := w / j) in *.
+    assert (0 < r) as Hr by nia.
+    assert (idx <? lenw d * r = true) as -> by (apply N.ltb_lt; nia).
+    pose proof (div_mod_eq idx r) as Ei. pose proof (mod_lt' idx r Hr) as Him.
+    destruct (divmod_unique (j * idx) w (idx / r) (j * (idx mod r)) Hw) as [Eq Er]; [nia|nia|].
+    eexists. split; [reflexivity|].
+    change (setw d (idx / r) (write_word w (getw d (idx / r)) (j * (idx mod r)) j x))
+      with (setw d (idx / r) (write_word w (getw d (idx / r)) (j * (idx mod r)) j x)).
+    rewrite <- Eq, <- Er. fold (write_bits w d (j * idx) j x).
+    split; [apply words_ok_write_bits; assumption|]. split; [apply lenw_write_bits|].
+    assert (idx / r < lenw d) as Hq.
+    { apply N.div_lt_upper_bound; [lia|].
+      apply (N.mul_lt_mono_pos_r j); [assumption|]. rewrite Ew in Hin. lia. }
+    assert (j * (idx mod r) + j <= w) as Hfit.
+    { rewrite Ew. replace (j * (idx mod r) + j) with (j * (idx mod r + 1)) by lia.
+      apply N.mul_le_mono_l. lia. }
+    intros b. rewrite write_bits_testbit; try assumption; [|rewrite Eq; exact Hq|rewrite Er; exact Hfit].
+    destruct (N.leb_spec (j * idx) b); destruct (N.ltb_spec b (j * idx + j)); cbn [andb]; try reflexivity.
+    assert (j * idx + j <= w * lenw d) as Hend.
+    { assert (idx < r * lenw d) as Hi2 by (apply (N.mul_lt_mono_pos_r j); [assumption|]; rewrite Ew in Hin; lia).
+      rewrite Ew. replace (j * idx + j) with (j * (idx + 1)) by lia.
+      rewrite <- N.mul_assoc. apply N.mul_le_mono_l. lia. }
+    assert (b <? w * lenw d = true) as -> by (apply N.ltb_lt; lia). reflexivity.
+  - assert (j mod w = 0) as Hd0.
+    { destruct Hdiv as [H|H]; [|assumption]. pose proof (mod0_mul w j Hj H). destruct (w / j) as [|p]; nia. }
+    rewrite (slice_int_len_spec w j Hwj) by assumption.
+    assert (idx * j <? w * lenw d = true) as -> by (apply N.ltb_lt; assumption). cbn [negb].
+    pose proof (mod0_mul j w Hw Hd0) as Ej. set (s := j / w) in *.
+    assert (0 < s) as Hs by nia.
+    eexists. split; [reflexivity|].
+    split; [apply fold_setw_ok; [assumption|intros; apply wrap_lt]|].
+    split; [apply fold_setw_lenw|].
+    intros b. rewrite !raw_testbit by (try apply fold_setw_ok; try assumption; intros; apply wrap_lt).
+    rewrite fold_setw_getw.
+    pose proof (div_mod_eq b w) as Eb. pose proof (mod_lt' b w Hw) as Hbm.
+    assert ((j * idx <=? b) = (idx * s <=? b / w)) as ->.
+    { rewrite <- (leb_mul_div w) by assumption. f_equal. rewrite Ej. lia. }
+    assert ((b <? j * idx + j) = (b / w <? idx * s + s)) as ->.
+    { rewrite <- (ltb_mul_div w) by assumption. f_equal. rewrite Ej. lia. }
+    rewrite (ltb_mul_div w (lenw d) b) by assumption.
+    destruct (N.leb_spec (idx * s) (b / w)) as [H1|H1]; destruct (N.ltb_spec (b / w) (idx * s + s)) as [H2|H2];
+      destruct (N.ltb_spec (b / w) (lenw d)) as [H3|H3]; cbn [andb]; try reflexivity.
+    rewrite wrap_testbit, shrw_testbit.
+    assert (b mod w <? w = true) as -> by (apply N.ltb_lt; assumption). cbn [andb]. f_equal.
+    (* b - j*idx = b mod w + w * (b/w - idx*s) *)
+    rewrite Ej.
+    assert (w * (b / w) = w * (idx * s) + w * (b / w - idx * s)) as Esplit.
+    { rewrite <- N.mul_add_distr_l. f_equal. lia. }
+    set (t := b / w - idx * s) in *. set (q := b / w) in *. set (m := b mod w) in *.
+    clearbody t q m. clear -Eb Esplit. subst b. lia.
+Qed.
+
+Lemma v_set_int_spec w j v idx x :
+  widths_ok w j -> canon_wv w v -> x < 2 ^ j ->
+  canon_wv w (v_set_int w j v idx x) /\ wl (v_set_int w j v idx x) = wl v /\
+  lenw (wd (v_set_int w j v idx x)) = lenw (wd v) /\
+  forall b, N.testbit (raw w (wd (v_set_int w j v idx x))) b =
+            if (j * idx <=? b) && (b <? j * idx + j) && (b <? wl v)
+            then N.testbit x (b - j * idx) else N.testbit (raw w (wd v)) b.
+Proof.
+  intros Hwj Hc Hx. pose proof Hc as (Hd & Hl & Hr). unfold v_set_int.
+  destruct (N.ltb_spec (idx * j) (wl v)) as [Hin|Hin].
+  - set (y := N.land x (maskw j (wl v - idx * j))).
+    assert (y < 2 ^ j) as Hy.
+    { apply lt_pow2_of_bits. intros b Hb. unfold y. rewrite N.land_spec.
+      rewrite (testbit_high x j b) by assumption. reflexivity. }
+    destruct (slice_set_int_spec w j (wd v) idx y Hwj Hd Hy ltac:(lia)) as (d' & -> & Hd' & Hl' & Hb').
+    cbn [wd wl].
+    assert (forall b, N.testbit (raw w d') b =
+                      if (j * idx <=? b) && (b <? j * idx + j) && (b <? wl v)
+                      then N.testbit x (b - j * idx) else N.testbit (raw w (wd v)) b) as Hbits.
+    { intros b. rewrite Hb'. unfold y. rewrite N.land_spec, maskw_testbit.
+      destruct (N.leb_spec (j * idx) b) as [H1|H1]; destruct (N.ltb_spec b (j * idx + j)) as [H2|H2]; cbn [andb]; try reflexivity.
+      destruct (N.ltb_spec b (wl v)) as [H3|H3].
+      - assert (b <? w * lenw (wd v) = true) as -> by (apply N.ltb_lt; lia).
+        assert (b - j * idx <? wl v - idx * j = true) as -> by (apply N.ltb_lt; lia).
+        assert (b - j * idx <? j = true) as -> by (apply N.ltb_lt; lia).
+        cbn [andb]. apply andb_true_r.
+      - assert (b - j * idx <? wl v - idx * j = false) as -> by (apply N.ltb_ge; lia).
+        cbn [andb]. rewrite andb_false_r.
+        rewrite (testbit_high (raw w (wd v)) (wl v) b) by assumption.
+        destruct (b <? w * lenw (wd v)); reflexivity. }
+    split; [|split; [reflexivity|split; [assumption|exact Hbits]]].
+    apply canon_of_bits; [assumption|lia|].
+    intros b Hb. rewrite Hbits.
+    assert (b <? wl v = false) as -> by (apply N.ltb_ge; assumption). rewrite andb_false_r.
+    apply (testbit_high _ (wl v)); assumption.
+  - split; [assumption|]. split; [reflexivity|]. split; [reflexivity|].
+    intros b. destruct (N.leb_spec (j * idx) b); destruct (N.ltb_spec b (wl v)); cbn [andb]; try reflexivity;
+      try (rewrite andb_false_r; reflexivity); lia.
+Qed.
